@@ -71,7 +71,7 @@ theorem compilesTo_of_compile_logic {m : Model (Ext K)} {t : K} (ht : 0 ≤ t) {
     (hm : LogicModel m m.domain) (hsh : AssertShape m) (hok : DeclOK m.domain)
     (ht1 : t < 1 ∨ NoIntegerVars m.domain) :
     CompilesTo m lm :=
-  ⟨compile_optType h, fun ρ hs => hm.obj.defd ρ ((srcFeasible_iff m ρ).mp hs).2,
+  ⟨compile_optType h, compile_obj_defined ht h hm hsh hok ht1,
     compile_feasible_iff_logic ht h hm hsh hok ht1, compile_objective_logic ht h hm hsh hok ht1⟩
 
 /-- the piecewise-linear fragment as a special case (hypotheses: those of `c01_compile_partial`). -/
